@@ -2,7 +2,7 @@
    The native solver cannot be proved; what is proved, for all problems, is the
    soundness of the executable certificate checkers that every solver answer must pass. *)
 From Coq Require Import QArith List Bool.
-From EAO Require Import Num LP Cert.
+From EAO Require Import Num LP Cert Mapping Dcf Translate.
 Import ListNotations.
 Open Scope Q_scope.
 
@@ -27,6 +27,17 @@ Theorem C03_infeasibility_check_sound :
   forall P y, check_farkas P y = true -> forall x, ~ feasible P x.
 Proof. exact check_farkas_sound. Qed.
 Print Assumptions C03_infeasibility_check_sound.
+
+(* what optimize() hands to the solver -- bounds as two vector constraints, rows grouped by class -- has exactly the feasible
+   points of the assembled problem (the groups are compared with what cvxpy receives on every instance) *)
+Theorem C03_translation_equivalent : forall P x, sat P x <-> feasible P x.
+Proof. exact translate_equiv. Qed.
+Print Assumptions C03_translation_equivalent.
+(* a variable is declared boolean iff the first mapping row of that variable carries the flag *)
+Theorem C03_boolean_variables :
+  forall mp v, In v (bool_vars mp) <-> exists r, In r (firsts [] mp) /\ m_var r = v /\ m_bool r = true.
+Proof. exact bool_vars_spec. Qed.
+Print Assumptions C03_boolean_variables.
 
 (* non-vacuity: max x0 + x1  s.t.  x0 + 2 x1 <= 4,  0 <= x <= 3 ;  optimum (3, 1/2), y = 1/2 *)
 Definition exP : lp := Build_lp [-1; -1] [0; 0] [3; 3] [Build_crow [(0%nat, 1); (1%nat, 2)] RU 4].
